@@ -988,6 +988,9 @@ func makeObject(props map[string]string, schema *openapi3.SchemaRef) (map[string
 	return result, nil
 }
 
+// maxDeepObjectArrayIndex is the highest array index accepted in a deepObject query key (p[arr][N]=...).
+const maxDeepObjectArrayIndex = 1000
+
 // example: map[0:map[key:true] 1:map[key:false]] -> [map[key:true] map[key:false]]
 func sliceMapToSlice(m map[string]any) ([]any, error) {
 	var result []any
@@ -997,6 +1000,10 @@ func sliceMapToSlice(m map[string]any) ([]any, error) {
 		key, err := strconv.Atoi(k)
 		if err != nil {
 			return nil, fmt.Errorf("array indexes must be integers: %w", err)
+		}
+		if key < 0 || key > maxDeepObjectArrayIndex {
+			// the array is built up to its highest index: a short query must not buy an arbitrarily large allocation
+			return nil, fmt.Errorf("array index %d is out of range (0..%d)", key, maxDeepObjectArrayIndex)
 		}
 		keys = append(keys, key)
 	}
